@@ -171,6 +171,65 @@ fn check_layout(t: &mut Tally, scratch: &Path, id: usize, l: &Layout) {
     });
 }
 
+/// A database of complete package directories with arbitrary names (each containing a '-'),
+/// one incomplete directory and one stray file: every complete directory is listed once with
+/// pkgbase / pkgversion split at the last '-', and its +DESC reads back.
+fn check_names(t: &mut Tally, scratch: &Path, id: usize, names: &[String]) {
+    t.evals += 1;
+    t.validated += 1;
+    let case = || json!({"complete_directories": names});
+    let root = scratch.join(format!("names{}", id));
+    let _ = std::fs::remove_dir_all(&root);
+    let built = (|| -> std::io::Result<()> {
+        std::fs::create_dir_all(&root)?;
+        for n in names {
+            let d = root.join(n);
+            std::fs::create_dir_all(&d)?;
+            for f in MANDATORY {
+                std::fs::write(d.join(f), content(n, f))?;
+            }
+        }
+        std::fs::create_dir_all(root.join("incomplete-1.0"))?;
+        std::fs::write(root.join("incomplete-1.0").join("+DESC"), b"x")?;
+        std::fs::write(root.join("stray-file-1.0"), b"x")?;
+        Ok(())
+    })();
+    if built.is_err() {
+        // a name the file system refuses is not a case
+        let _ = std::fs::remove_dir_all(&root);
+        t.outcome("names/not-creatable");
+        return;
+    }
+    let got = guard(|| {
+        let db = PkgDB::open(&root).map_err(|e| e.to_string())?;
+        let mut seen: Vec<(String, String, String, Result<String, String>)> = vec![];
+        for p in db {
+            let p = p.map_err(|e| e.to_string())?;
+            let desc = p.read_metadata(MetadataEntry::Desc).map_err(|e| e.kind().to_string());
+            seen.push((p.pkgname().clone(), p.pkgbase().clone(), p.pkgversion().clone(), desc));
+        }
+        seen.sort();
+        Ok::<_, String>(seen)
+    });
+    let _ = std::fs::remove_dir_all(&root);
+    let mut want: Vec<(String, String, String, Result<String, String>)> = names
+        .iter()
+        .map(|n| {
+            let i = n.rfind('-').unwrap();
+            (n.clone(), n[..i].to_string(), n[i + 1..].to_string(), Ok(content(n, "+DESC")))
+        })
+        .collect();
+    want.sort();
+    want.dedup();
+    match got {
+        Ok(Ok(seen)) if seen == want => {
+            t.nontrivial += 1;
+            t.outcome("names/all-listed");
+        }
+        other => t.violation(Violation::new("names", case(), json!(format!("{:?}", want)), json!(format!("{:?}", other)), "every sub-directory containing +COMMENT, +CONTENTS and +DESC is a package, whatever its name; pkgbase / pkgversion split at the last '-'")),
+    }
+}
+
 fn tables(t: &mut Tally) {
     // bijection over the 14 '+' files
     for i in 0..14 {
@@ -269,6 +328,10 @@ fn replay(run: &Run, doc: &Value) -> Option<Violation> {
             let l = Layout { dirs, stray: c["stray"].as_u64().unwrap_or(0) as u8 };
             check_layout(&mut t, &run.scratch_dir(), 0, &l);
         }
+        Some("names") => {
+            let names: Vec<String> = c["complete_directories"].as_array().map(|a| a.iter().filter_map(|x| x.as_str().map(|s| s.to_string())).collect()).unwrap_or_default();
+            check_names(&mut t, &run.scratch_dir(), 0, &names);
+        }
         _ => tables(&mut t),
     }
     t.violations.into_iter().next()
@@ -346,6 +409,24 @@ fn main() {
         check_layout(t, &scratch, i, l);
         t.sample(run.seed, i as u64, || layout_json(l));
     });
+    // name sweep: every ASCII character (except '/' and NUL) and 64 special characters at the
+    // start, inside and at the end of the base and of the version of a complete package directory
+    {
+        let mut chars = mc_core::chars::all();
+        chars.retain(|c| *c != '/');
+        let mut sets: Vec<Vec<String>> = chars
+            .iter()
+            .map(|c| vec![format!("{}pkg-1.0", c), format!("pkg-1.0{}", c), format!("pk{}g-1.0", c), format!("pkg-{}1", c), format!("pkg{}-2", c), format!("{}{}x-3", c, c)])
+            .collect();
+        sets.push(vec![".hidden-tool-2.0nb1".into(), "..odd-3".into(), "...-1".into(), "-lead-1".into(), "trail-1-".into(), "--".into(), "-".into(), "a--1".into(), "lost+found-1".into(), "CVS-1".into(), ".git-1".into(), "#tmp#-1".into(), "core-1".into(), "pkgdb.byfile.db-1".into(), "x-1.tmp".into(), "x-1.lock".into(), "x-1~".into()]);
+        sets.push((0..40).map(|i| format!("{}-{}", "n".repeat(1 + i * 6), "9".repeat(1 + (i % 5) * 50))).filter(|n| n.len() <= 250).collect());
+        run.bound(format!("name sweep: {} databases, {} characters in six positions of a complete directory's name, plus dot-leading / dash-only / editor-dropping-like names and names up to 250 bytes", sets.len(), chars.len()));
+        par_items(&run, "C20 names", &sets, |i, names, t| {
+            t.states += 1;
+            t.transitions += names.len() as u64;
+            check_names(t, &scratch, i, names);
+        });
+    }
     let mut t = Tally::new();
     tables(&mut t);
     run.merge(t);
